@@ -18,8 +18,11 @@ import (
 	"fmt"
 	"iter"
 	"reflect"
+	"runtime"
 	"sort"
+	"sync"
 	"time"
+	"unsafe"
 )
 
 // ---- map order --------------------------------------------------------
@@ -354,3 +357,77 @@ func ChanRange[T any](c <-chan T, site string) iter.Seq[T] {
 		}
 	}
 }
+
+// ---- locks (C16) ---------------------------------------------------------
+
+// BlockedHook, if set, is called when the running task cannot take a lock:
+// the scheduler hands the baton to another task (the holder is parked
+// somewhere and has to run before the lock is released).
+var BlockedHook func()
+
+// SpinLock replaces mu.Lock() / mu.RLock() in C16 builds: try is the bound
+// TryLock / TryRLock method.  A real Lock would block the only running task
+// for ever if the holder is parked.
+func SpinLock(try func() bool) {
+	for !try() {
+		if h := BlockedHook; h != nil {
+			h()
+		} else {
+			runtimeGosched()
+		}
+	}
+}
+
+const maxOnce = 256
+
+var (
+	onceKeys    [maxOnce]unsafe.Pointer
+	onceRunning [maxOnce]bool
+	onceUsed    int
+)
+
+//go:norace
+func onceSlot(o *sync.Once) int {
+	p := unsafe.Pointer(o)
+	for i := 0; i < onceUsed; i++ {
+		if onceKeys[i] == p {
+			return i
+		}
+	}
+	if onceUsed == maxOnce {
+		return -1
+	}
+	onceKeys[onceUsed] = p
+	onceUsed++
+	return onceUsed - 1
+}
+
+//go:norace
+func onceIsRunning(i int) bool { return i >= 0 && onceRunning[i] }
+
+//go:norace
+func onceSetRunning(i int, v bool) {
+	if i >= 0 {
+		onceRunning[i] = v
+	}
+}
+
+// OnceDo replaces o.Do(f) in C16 builds: while another (parked) task is
+// inside f the caller yields instead of blocking inside the real Once.
+func OnceDo(o *sync.Once, f func()) {
+	i := onceSlot(o)
+	for onceIsRunning(i) {
+		if h := BlockedHook; h != nil {
+			h()
+		} else {
+			runtimeGosched()
+		}
+	}
+	o.Do(func() {
+		onceSetRunning(i, true)
+		defer onceSetRunning(i, false)
+		f()
+	})
+}
+
+func runtimeGosched() { runtime.Gosched() }
